@@ -247,7 +247,7 @@ func c04Sequential(w *fw.Worker, i int, r *fw.Rand) {
 			}
 			mark := len(e.CBLog())
 			gate := make(chan struct{})
-			e.CBGate = gate
+			e.SetCBGate(gate)
 			la := e.RandLayer(r, 0, 0)
 			resA, ok := step(la)
 			parked := ok && resA == conc.ResNil && conc.WaitUntil(func() bool { return e.InCB() > 0 }, 5*time.Second)
@@ -261,7 +261,7 @@ func c04Sequential(w *fw.Worker, i int, r *fw.Rand) {
 					step(e.RandLayer(r, 0, 0))
 				}
 			}
-			e.CBGate = nil
+			e.SetCBGate(nil)
 			close(gate)
 			if !e.FenceCallbacks(ctx) {
 				w.Inconclusive(i, "callback fence failed")
@@ -688,7 +688,7 @@ func c04RejectThenShutdown(w *fw.Worker, i int, r *fw.Rand) {
 	e.ExtraHook = func(name string, hctx context.Context, args []any) { tr.OnHook(e.S, name, hctx, args) }
 	ctx := e.S.Ctx
 	desc := map[string]any{"mode": "reject-then-shutdown"}
-	e.CBGate = make(chan struct{})
+	e.SetCBGate(make(chan struct{}))
 	ok := e.RandLayer(r, 0, 0)
 	e.Report(ctx, 0, 0, ok, true)
 	if !conc.WaitUntil(func() bool { return e.InCB() > 0 }, 20*time.Second) {
